@@ -25,7 +25,19 @@ class TemplateFileSorter(FileSorter):
         self.invert = invert
 
     def __call__(self, files: Iterable[File]) -> Iterable[File]:
-        return sorted(files, key=self._generate_sort_key, reverse=self.invert)
+        keyed_files = [(self._generate_sort_key(file), file) for file in files]
+        try:
+            keyed_files.sort(key=lambda keyed_file: keyed_file[0], reverse=self.invert)
+        except TypeError as type_error:
+            # Sort keys rendered for different files are of different types (e.g. 'a' and 5)
+            assert self.pattern.source_representation is not None
+            raise TemplateEvaluationError(
+                keyed_files[0][1],
+                self.pattern.source_representation,
+                ", ".join(repr(key) for key, _ in keyed_files[:3]) + ", ...",
+                f"sort keys cannot be compared: {type_error}",
+            )
+        return [file for _, file in keyed_files]
 
     def _generate_sort_key(self, file: File) -> Tuple:
         self.log.debug("Rendering sorting value template for '%s'", file)
